@@ -16,7 +16,12 @@ func (tb *tokenBucket) adjustOnFailure(statusCode int) {
 	// For rate limiting errors, impose a penalty period.
 	case statusCode == 429 || statusCode == 403 || statusCode == 408 || statusCode == 425:
 		tb.failureCount++
-		penalty := min(time.Duration(float64(basePenaltyDuration)*math.Pow(2, float64(tb.failureCount-1))), maxPenaltyDuration)
+		// Compare in float64 and convert only below the cap: converting a value beyond the int64
+		// range (reached at the 32nd consecutive failure) is not defined and yielded a negative penalty.
+		penalty := maxPenaltyDuration
+		if p := float64(basePenaltyDuration) * math.Pow(2, float64(tb.failureCount-1)); p < float64(maxPenaltyDuration) {
+			penalty = time.Duration(p)
+		}
 		tb.penaltyUntil = now.Add(penalty)
 		// Optionally, clear tokens to prevent immediate further requests.
 		tb.tokens = 0
